@@ -7,14 +7,20 @@
    transported: hypotheses about the digest become facts about the octets, and what the step does to the
    database becomes a statement about `fs_db`.
 
-   0. tools      the digest against the octets (`frag_digest_rvok`, `wf_request`), every observation in the log
-                 of a composed step is an observation of a session step (`fstep_log_obs`), a step whose session
-                 part asks nothing and calls nothing leaves the database alone (`fevent_db_untouched`),
-                 FReach implies every session-level reachability predicate
+   0. tools      the digest against the octets (`frag_digest_rvok`, `wf_request`, `wf_request_digest`); every
+                 observation in the log of a reception is an observation of the session step for SOME answers, so
+                 what holds of the session step for ALL answers holds of the log (`frx_log_obs`); a step whose
+                 session part calls the database nowhere leaves it alone (`fevent_db_untouched`); FReach implies
+                 the reachability predicates of the session-level proofs (`freach_reachD`, `freach_reach05`, ...)
    1. C04        frx_sbo_operate_needs_matching_select
-   2. C05        frx_repeat_not_reexecuted, frx_repeat_unsol_wait_untouched, frx_repeat_idle_untouched
+   2. C05        frx_repeat_not_reexecuted, frx_repeat_database_untouched
    3. C14        frx_read_deferred, fsleep_deferred_read_served, frx_confirm_deferred_read_served
-   4. C12        header_error_reported_all (session level, all control states), frx_header_error_reported *)
+   4. C12        header_error_reported_all (session level, every control state), frx_header_error_reported
+
+   Statements about what a step CONTAINS are made about `ro_out` (the session's observations on the answers the
+   replay computed: `fevent_run`); statements about what a step can NOT contain are made about its log.  The log
+   itself is assembled from runs on growing answer lists; that it equals `ro_out` interleaved with the answers
+   would need the prefix-stability of `ostep` in its answers, which is proved nowhere. *)
 From Dnp3V Require Import Base.Bytes App.AppHeader App.Grammar.
 From Dnp3V Require Import Outstation.DbTypes Outstation.EventBuffer Outstation.StaticDb Outstation.Database.
 From Dnp3V Require Import Outstation.Session Outstation.Full Outstation.FullProofs.
@@ -974,4 +980,430 @@ Proof.
               (freach_deferred_seq F st df HR Hd) A1 Eh) as (iin1 & iin2 & Ho' & _).
   eexists _, iin1, iin2, _, more. split; [exact Hans|].
   rewrite Ho. cbn [snd]. rewrite Ho'. fold pre. rewrite <- !app_assoc. reflexivity.
+Qed.
+
+(* ---- the step in which the CONFIRM of the unsolicited response arrives with a READ pending ------------- *)
+
+Lemma bcast_confirmed_same s u q :
+  s_answers (bcast_confirmed s u q) = s_answers s /\ s_deferred (bcast_confirmed s u q) = s_deferred s.
+Proof. unfold bcast_confirmed. destruct (rep_eqb (s_bcast_rep s) u q); split; reflexivity. Qed.
+
+Lemma confirm_ends_series cfg s resp n ret dl df from bytes d ctl obj a :
+  s_control s = CUnsolWait resp n ret dl -> s_deferred s = Some df ->
+  to_treq cfg from d = TqRequest ctl fn_confirm obj -> ctl_uns ctl = true -> ctl_seq ctl = ctl_seq (r_ctl resp) ->
+  exists sx tl,
+    s_answers sx = a /\ s_deferred sx = Some df /\
+    snd (ostep cfg s (ERx from None bytes d) a) =
+    (OInfo (IUnsolConfirmed (ctl_seq (r_ctl resp))) :: (if n then [] else [ODb DbClearWritten]))
+    ++ snd (handle_deferred cfg sx true) ++ tl.
+Proof.
+  intros Hc Hd Et Hu Hq. rewrite ostep_rx.
+  rewrite (P05.on_rx_unsol cfg (upd_answers s a) from None bytes d resp n ret dl) by exact Hc.
+  unfold unsol_wait_fragment. rewrite Et. cbv zeta. unfold classify. change (fn_confirm =? fn_confirm) with true. cbv iota.
+  rewrite Hu, Hq, N.eqb_refl.
+  match goal with |- context [bcast_confirmed ?x ?u ?q] =>
+    pose proof (bcast_confirmed_same x u q) as [B1 B2]; set (sb := bcast_confirmed x u q) in * end.
+  unfold P05.rx_state in B1, B2. L05.psimpl_in B1. L05.psimpl_in B2.
+  unfold end_unsol. destruct n.
+  - rewrite resume_at_eq. change 32%nat with (S 31). rewrite L05.idle_run_S.
+    match goal with |- context [handle_deferred cfg ?x ?y] => exists x; destruct (handle_deferred cfg x y) as [s3 o3] end.
+    destruct (s_control s3).
+    + match goal with |- context [idle_run 31 cfg ?st s3] => destruct (idle_run 31 cfg st s3) as [s4 o4] end.
+      match goal with |- context [advance 64 cfg ?x ?y] => destruct (advance 64 cfg x y) as [s5 o5] end.
+      exists (o4 ++ o5). L05.psimpl. split; [exact B1|]. split; [rewrite B2; exact Hd|]. cbn [snd app]. rewrite <- ?app_assoc. reflexivity.
+    + match goal with |- context [advance 64 cfg ?x ?y] => destruct (advance 64 cfg x y) as [s5 o5] end.
+      exists o5. L05.psimpl. split; [exact B1|]. split; [rewrite B2; exact Hd|]. cbn [snd app]. rewrite <- ?app_assoc. reflexivity.
+    + match goal with |- context [advance 64 cfg ?x ?y] => destruct (advance 64 cfg x y) as [s5 o5] end.
+      exists o5. L05.psimpl. split; [exact B1|]. split; [rewrite B2; exact Hd|]. cbn [snd app]. rewrite <- ?app_assoc. reflexivity.
+  - rewrite resume_at_eq. change 32%nat with (S 31). rewrite L05.idle_run_S.
+    match goal with |- context [handle_deferred cfg ?x ?y] => exists x; destruct (handle_deferred cfg x y) as [s3 o3] end.
+    destruct (s_control s3).
+    + match goal with |- context [idle_run 31 cfg ?st s3] => destruct (idle_run 31 cfg st s3) as [s4 o4] end.
+      match goal with |- context [advance 64 cfg ?x ?y] => destruct (advance 64 cfg x y) as [s5 o5] end.
+      exists (o4 ++ o5). L05.psimpl. split; [exact B1|]. split; [rewrite B2; exact Hd|]. cbn [snd app]. rewrite <- ?app_assoc. reflexivity.
+    + match goal with |- context [advance 64 cfg ?x ?y] => destruct (advance 64 cfg x y) as [s5 o5] end.
+      exists o5. L05.psimpl. split; [exact B1|]. split; [rewrite B2; exact Hd|]. cbn [snd app]. rewrite <- ?app_assoc. reflexivity.
+    + match goal with |- context [advance 64 cfg ?x ?y] => destruct (advance 64 cfg x y) as [s5 o5] end.
+      exists o5. L05.psimpl. split; [exact B1|]. split; [rewrite B2; exact Hd|]. cbn [snd app]. rewrite <- ?app_assoc. reflexivity.
+Qed.
+
+(* THEOREM C14c (composed).  The same when the series ends because the CONFIRM of the unsolicited response
+   arrives: octet 1 = 0, UNS set in octet 0, sequence number (octet 0 mod 16) that of the outstanding
+   response.  The written events are released first (unless the response was the empty one), then the deferred
+   READ is selected and written from the database as that left it. *)
+Theorem frx_confirm_deferred_read_served : forall F st from bytes resp n ret dl df,
+  FReach F st ->
+  s_control (fs_s st) = CUnsolWait resp n ret dl -> s_deferred (fs_s st) = Some df ->
+  accepted_master (f_o F) from -> wf_request bytes ->
+  nth 1 bytes 0 = 0 -> N.testbit (nth 0 bytes 0) 4 = true -> nth 0 bytes 0 mod 16 = ctl_seq (r_ctl resp) ->
+  let ro := frx_out F st from None bytes in
+  ~ In FReplayError (ro_log ro) ->
+  let d0 := if n then fs_db st else fst (db_clear_written (fs_db st)) in
+  let sel := select_deferred d0 (request_headers (df_bytes df)) in
+  let w := db_write_response (fst (fst sel)) (N.of_nat (o_sol_tx (f_o F)) - 4) in
+  let body := fst (fst (snd w)) in
+  let has_events := snd (fst (snd w)) in
+  let complete := snd (snd w) in
+  exists con iin1 iin2 tail more,
+    ro_answers ro = AIin2 (snd (fst sel)) :: AWrite complete has_events body :: evinfo_answer_of (fst w) :: more /\
+    ro_out ro =
+      (OInfo (IUnsolConfirmed (ctl_seq (r_ctl resp))) :: (if n then [] else [ODb DbClearWritten])) ++
+      [ODb DbDeferredSelect; ODb DbWrite; ODb DbEvinfo;
+       OTx (df_from df) ([ctl_byte true complete con false (df_seq df); 129; iin1; iin2] ++ body)] ++ tail.
+Proof.
+  intros F st from bytes resp n ret dl df HR Hc Hd Hacc Hwf Hfn Huns Hseq ro Hno d0 sel w body has_events complete.
+  set (cfg := f_o F) in *. set (s := fs_s st) in *.
+  apply wf_request_digest in Hwf. destruct Hwf as (hdrs & rh & Hdg). rewrite Hfn in Hdg.
+  set (ctl := nth 0 bytes 0) in *. set (dg := frag_digest bytes) in *.
+  assert (Et : to_treq cfg from dg = TqRequest ctl fn_confirm (ObjOk hdrs rh))
+    by (rewrite (to_treq_accepted _ _ _ Hacc), Hdg; reflexivity).
+  assert (Hu : ctl_uns ctl = true) by exact Huns.
+  assert (Hq : ctl_seq ctl = ctl_seq (r_ctl resp)) by exact Hseq.
+  set (pre := OInfo (IUnsolConfirmed (ctl_seq (r_ctl resp))) :: (if n then [] else [ODb DbClearWritten])).
+  set (ev := ERx from None bytes dg).
+  set (run := fun a => ostep cfg s ev a).
+  assert (Hctx : deferred_request (ctx_of cfg s ev) = df_bytes df).
+  { unfold deferred_request, ctx_of, ev, event_is_deferrable. rewrite Et. cbn [wc_ev_read wc_deferred].
+    change (fn_confirm =? fn_read) with false. cbv iota. rewrite Hd. reflexivity. }
+  assert (Hans : exists more, ro_answers ro = AIin2 (snd (fst sel)) :: AWrite complete has_events body
+                                              :: evinfo_answer_of (fst w) :: more).
+  { subst ro. unfold frx_out, fevent_out in *. fold cfg s dg ev run in Hno |- *.
+    pose proof (replay_deferred_answers F run (fs_db st) d0 (ctx_of cfg s ev) pre) as H.
+    rewrite Hctx in H. apply H; [| | | |exact Hno]; clear H.
+    - intros tl. subst pre d0. destruct n; cbn [walk app length tx_log]; [eexists; reflexivity|].
+      destruct (db_clear_written (fs_db st)) as [d1 [ids cnt]]. cbn [fst]. eexists. reflexivity.
+    - intros a Ha. unfold run, ev.
+      destruct (confirm_ends_series cfg s resp n ret dl df from bytes dg ctl _ a Hc Hd Et Hu Hq) as (sx & tl & A1 & A2 & ->).
+      rewrite <- A1 in Ha. destruct (handle_deferred_q0 cfg sx true df A2 Ha) as [tl' ->].
+      fold pre. eexists. cbn [app]. reflexivity.
+    - intros v a Ha. unfold run, ev.
+      destruct (confirm_ends_series cfg s resp n ret dl df from bytes dg ctl _ (AIin2 v :: a) Hc Hd Et Hu Hq) as (sx & tl & A1 & A2 & ->).
+      destruct (handle_deferred_q1 cfg sx true df v a A2 A1 Ha) as [tl' ->].
+      fold pre. eexists. cbn [app]. reflexivity.
+    - intros v cp he b a Ha. unfold run, ev.
+      destruct (confirm_ends_series cfg s resp n ret dl df from bytes dg ctl _ (AIin2 v :: AWrite cp he b :: a) Hc Hd Et Hu Hq)
+        as (sx & tl & A1 & A2 & ->).
+      destruct (handle_deferred_q2 cfg sx true df v cp he b a A2 A1 Ha) as [tl' ->].
+      fold pre. eexists. cbn [app]. reflexivity. }
+  destruct Hans as [more Hans].
+  pose proof (fevent_run F st (fs_db st) ev) as Hrun. fold cfg s in Hrun. change (fevent_out F st (fs_db st) ev) with ro in Hrun.
+  destruct (evinfo_answer_of (fst w)) as [v0|c0 e0 b0|n0 b0|c1 c2 c3 ovf] eqn:Eev;
+    try (unfold evinfo_answer_of in Eev; destruct (db_unwritten_classes (fst w)) as [[? ?] ?]; discriminate Eev).
+  destruct (confirm_ends_series cfg s resp n ret dl df from bytes dg ctl _ (ro_answers ro) Hc Hd Et Hu Hq) as (sx & tl & A1 & A2 & Ho).
+  fold ev in Ho. rewrite Hrun in Ho. cbn [snd] in Ho.
+  destruct (handle_deferred cfg sx true) as [s' o'] eqn:Eh.
+  rewrite Hans in A1.
+  destruct (P11.first_fragment_deferred cfg sx true df _ complete has_events body c1 c2 c3 ovf more s' o' A2
+              (freach_deferred_seq F st df HR Hd) A1 Eh) as (iin1 & iin2 & Ho' & _).
+  eexists _, iin1, iin2, _, more. split; [exact Hans|].
+  rewrite Ho. cbn [snd]. rewrite Ho'. fold pre. rewrite <- !app_assoc. reflexivity.
+Qed.
+
+(* non-vacuity: a counter (value 10), a class 0 READ while the empty unsolicited response of start-up awaits its
+   confirmation: deferred, nothing done; the user updates the counter to 99; the confirm timeout (or the
+   CONFIRM) ends the series: the answer carries 99, the value at THAT moment (10 had the update not happened) *)
+Definition cy_F : fcfg :=
+  {| f_o := {| o_master := 1; o_any_master := false; o_unsol := true; o_broadcast := true;
+               o_confirm_ms := 5000; o_select_ms := 5000; o_retries := None; o_retry_delay_ms := 5000;
+               o_max_controls := None; o_sol_tx := 2048; o_delay_ms := 0; o_cold := None; o_warm := None;
+               o_wtime := 0; o_freeze := 0 |};
+     f_unsol_tx := 2048; f_evbuf := 5 |}.
+Definition cy_count (v : N) : meas := mkMeas v 1 None [].
+Definition cy_rd : list N := [193; 1; 60; 1; 6].
+Definition cy_waiting : fstate :=
+  ffinal cy_F (fst (fstart cy_F 0 0 0)) [FAdd TCounter 0 None; FUpdate TCounter 0 (cy_count 10)].
+Definition cy_deferred : fstate := ffinal cy_F cy_waiting [FRx 1 None cy_rd].
+Definition cy_updated : fstate := ffinal cy_F cy_deferred [FUpdate TCounter 0 (cy_count 99)].
+
+Example ex_frx_read_deferred :
+  FReach cy_F cy_waiting /\ accepted_master (f_o cy_F) 1 /\ wf_request cy_rd /\
+  s_control (fs_s cy_waiting) =
+    CUnsolWait {| r_ctl := 240; r_fn := 130; r_iin1 := 128; r_iin2 := 0; r_size := 0 |} true (Some 0%nat) 5000 /\
+  s_now (fs_s cy_waiting) = 2%Z /\
+  ro_out (frx_out cy_F cy_waiting 1 None cy_rd) = [] /\ fs_db cy_deferred = fs_db cy_waiting /\
+  s_deferred (fs_s cy_deferred) = Some {| df_bytes := cy_rd; df_seq := 1; df_from := 1; df_iin2 := 0 |} /\
+  has_replay_error (snd (fstep cy_F cy_waiting (FRx 1 None cy_rd))) = false.
+Proof.
+  split; [apply FReach_ffinal; constructor|]. split; [right; reflexivity|].
+  split; [apply wf_request_digest; eexists; eexists; vm_compute; reflexivity|].
+  vm_compute. repeat split.
+Qed.
+
+Example ex_deferred_read_served :
+  FReach cy_F cy_updated /\
+  has_replay_error (snd (fstep cy_F cy_updated (FSleep 5000))) = false /\
+  ro_out (fevent_out cy_F cy_updated (fs_db cy_updated) (ESleep 5000)) =
+    [OAt 5000; OInfo (IUnsolTimeout 0 false); ODb DbDeferredSelect; ODb DbWrite; ODb DbEvinfo;
+     OTx 1 [193; 129; 128; 0; 20; 1; 1; 0; 0; 0; 0; 1; 99; 0; 0; 0];
+     ODb DbEvinfo; OTx 1 [241; 130; 128; 0]; OInfo (IEnterUnsolWait 1)] /\
+  ro_out (fevent_out cy_F cy_deferred (fs_db cy_deferred) (ESleep 5000)) =
+    [OAt 5000; OInfo (IUnsolTimeout 0 false); ODb DbDeferredSelect; ODb DbWrite; ODb DbEvinfo;
+     OTx 1 [193; 129; 128; 0; 20; 1; 1; 0; 0; 0; 0; 1; 10; 0; 0; 0];
+     ODb DbEvinfo; OTx 1 [241; 130; 128; 0]; OInfo (IEnterUnsolWait 1)] /\
+  wf_request [208; 0] /\
+  has_replay_error (snd (fstep cy_F cy_updated (FRx 1 None [208; 0]))) = false /\
+  ro_out (frx_out cy_F cy_updated 1 None [208; 0]) =
+    [OInfo (IUnsolConfirmed 0); ODb DbDeferredSelect; ODb DbWrite; ODb DbEvinfo;
+     OTx 1 [193; 129; 128; 0; 20; 1; 1; 0; 0; 0; 0; 1; 99; 0; 0; 0]].
+Proof.
+  split; [apply FReach_ffinal; apply FReach_ffinal; apply FReach_ffinal; constructor|].
+  split; [vm_compute; reflexivity|]. split; [vm_compute; reflexivity|]. split; [vm_compute; reflexivity|].
+  split; [apply wf_request_digest; eexists; eexists; vm_compute; reflexivity|].
+  vm_compute. repeat split.
+Qed.
+
+(* ================================================================================================ *)
+(* 4. C12: header errors are reported, in every control state                                          *)
+
+Module L12 := SessionLemmas_c12.
+Module P12 := SessionC12Proofs.
+
+(* a solicited response with IIN2.0 NO_FUNC_CODE_SUPPORT and sequence number q *)
+Definition err_resp (q : N) (b : list N) : Prop :=
+  nth 1 b 0 = 129 /\ ctl_seq (nth 0 b 0) = q mod 16 /\ N.land (nth 3 b 0) 1 = 1.
+
+(* exactly one solicited fragment in the output: that response, to `from`; whatever else is transmitted is
+   an unsolicited response (function 130) *)
+Definition reports_error (from q : N) (out : list oobs) : Prop :=
+  exists pre b post, out = pre ++ OTx from b :: post /\ Forall P12.not_sol pre /\ Forall P12.not_sol post /\ err_resp q b.
+
+Lemma wer_reports s from q s1 o :
+  write_error_response s from None (Some q) = (s1, o) ->
+  L12.same_core s s1 /\ exists pre b, o = pre ++ [OTx from b] /\ Forall L12.no_tx pre /\ err_resp q b.
+Proof.
+  intros H. apply L12.write_error_response_spec in H. destruct H as [Hc (r' & pre & G1 & G2 & G3)].
+  split; [exact Hc|]. exists pre, (response_bytes r' (s_sol_buf s1)). split; [exact G2|]. split; [exact G3|].
+  unfold err_resp. rewrite P12.response_bytes_nth0, P12.response_bytes_nth1, P12.response_bytes_nth3.
+  pose proof (L12.sent_of_seq _ _ G1) as Hs. destruct G1 as (A & _ & _ & [x D]).
+  split; [exact A|]. split; [rewrite Hs; cbn [empty_solicited r_ctl]; apply L12.ctl_byte_seq|].
+  rewrite D. apply P12.land_lor_1.
+Qed.
+
+Lemma reports_error_intro from q pre0 pre b post :
+  Forall P12.not_sol pre0 -> Forall L12.no_tx pre -> err_resp q b -> Forall P12.not_sol post ->
+  reports_error from q (pre0 ++ (pre ++ [OTx from b]) ++ post).
+Proof.
+  intros H0 H1 Hb H2. exists (pre0 ++ pre), b, post. rewrite <- !app_assoc. cbn [app].
+  split; [reflexivity|]. split; [apply Forall_app; split; [exact H0|apply P12.no_tx_not_sol; exact H1]|].
+  split; assumption.
+Qed.
+
+Section HeaderError.
+  Variable cfg : ocfg.
+  Variables (from : N) (bytes : list N) (d : digest) (q : N).
+  Hypothesis Et : to_treq cfg from d = TqError (Some q).
+
+  Let IAany := P12.IA P12.szany.
+
+  (* the idle loop at stage 1 with the offending fragment in the reader *)
+  Lemma idle_run_err_St1 f s fid s' o :
+    IAany s -> s_pending s = Some (from, None, bytes, d, fid) -> s_deferred s = None -> s_control s = CIdle ->
+    idle_run (S f) cfg St1 s = (s', o) ->
+    reports_error from q o /\ P12.quiet s' /\ IAany s'.
+  Proof.
+    intros HI Hp Hd Hc H. rewrite L05.idle_run_S, Hp in H.
+    destruct (handle_from_idle cfg (upd_pending s None) from None bytes d fid) as [s1 o1] eqn:E1.
+    assert (HI0 : IAany (upd_pending s None)) by exact HI.
+    pose proof (P12.handle_from_idle_IA cfg P12.szany P12.szany_small (P12.szany_tx cfg) _ _ _ _ _ _ _ _ HI0 E1) as [HI1 _].
+    rewrite L12.handle_from_idle_eq, Et in E1. apply wer_reports in E1.
+    destruct E1 as [Hsc (pre & b & -> & Hpre & Hb)].
+    destruct Hsc as (_ & C2 & _ & _ & _ & C6 & _ & C8 & _). L05.psimpl_in C2. L05.psimpl_in C6. L05.psimpl_in C8.
+    assert (Q1 : P12.quiet s1) by (split; [exact C8|rewrite C6; exact Hd]).
+    rewrite C2, Hc in H.
+    destruct (idle_run f cfg St2 s1) as [s2 o2] eqn:E2. injection H as <- <-.
+    pose proof (P12.idle_run_IA cfg P12.szany P12.szany_small (P12.szany_tx cfg) _ _ _ _ _ HI1 E2) as [HI2 _].
+    apply P12.idle_run_quiet in E2; [|exact Q1]. destruct E2 as [Q2 Ho2].
+    split; [|split; assumption].
+    change (reports_error from q ([] ++ (pre ++ [OTx from b]) ++ o2)). apply reports_error_intro; auto.
+  Qed.
+
+  (* ... resumed at stage 2 or 4 after an aborted solicited series *)
+  Lemma idle_run_err f st s fid s' o :
+    (st = St2 \/ exists ns, st = St4 ns) ->
+    IAany s -> s_pending s = Some (from, None, bytes, d, fid) -> s_deferred s = None -> s_control s = CIdle ->
+    idle_run (S (S (S (S f)))) cfg st s = (s', o) ->
+    reports_error from q o /\ P12.quiet s' /\ IAany s'.
+  Proof.
+    intros Hst HI Hp Hd Hc H. destruct Hst as [->|[ns ->]].
+    - rewrite L05.idle_run_S in H.
+      destruct (check_unsolicited cfg s) as [[s2 ns2] o2] eqn:E2.
+      pose proof (P12.check_unsolicited_notsol _ _ _ _ _ E2) as Ho2.
+      pose proof (P12.check_unsolicited_IA cfg P12.szany _ _ _ _ HI E2) as [HI2 _].
+      apply L12.check_unsolicited_frame in E2. destruct E2 as (_ & Hcu & Hctl).
+      destruct Hcu as (_ & _ & _ & D4 & D5 & _).
+      destruct Hctl as [Hctl|(resp & is_null & retries & dl & Hctl)].
+      + rewrite Hctl, Hc in H.
+        rewrite L05.idle_run_S, (L05.handle_deferred_none cfg s2 false) in H by congruence. rewrite Hctl, Hc in H.
+        rewrite L05.idle_run_S, D5, Hp in H.
+        destruct (idle_run (S f) cfg St1 s2) as [s3 o3] eqn:E3.
+        apply (idle_run_err_St1 f s2 fid) in E3; [|exact HI2|congruence|congruence|congruence].
+        destruct E3 as [(pre & b & post & -> & R1 & R2 & R3) Hrest].
+        injection H as <- <-. split; [|exact Hrest].
+        exists (o2 ++ pre), b, post. cbn [app]. rewrite <- app_assoc. split; [reflexivity|].
+        split; [apply Forall_app; split; assumption|]. split; assumption.
+      + rewrite Hctl, D5, Hp in H.
+        destruct (unsol_wait_fragment cfg (upd_pending s2 None) resp from None bytes d fid) as [[s3 res] o3] eqn:E3.
+        assert (HI20 : IAany (upd_pending s2 None)) by exact HI2.
+        pose proof (P12.unsol_wait_fragment_IA cfg P12.szany P12.szany_small (P12.szany_tx cfg) _ _ _ _ _ _ _ _ _ _ HI20 E3) as [HI3 _].
+        unfold unsol_wait_fragment in E3. rewrite Et in E3.
+        destruct (write_error_response (upd_deferred (upd_pending s2 None) None) from None (Some q)) as [s4 o4] eqn:E4.
+        injection E3 as <- <- <-. apply wer_reports in E4. destruct E4 as [Hsc (pre & b & -> & Hpre & Hb)].
+        destruct Hsc as (_ & _ & _ & _ & _ & C6 & _ & C8 & _). L05.psimpl_in C6. L05.psimpl_in C8.
+        injection H as <- <-. split; [|split; [split; assumption|exact HI3]].
+        replace (o2 ++ pre ++ [OTx from b]) with (o2 ++ (pre ++ [OTx from b]) ++ []) by (rewrite app_nil_r; reflexivity).
+        apply reports_error_intro; auto.
+    - rewrite L05.idle_run_S, Hp in H.
+      replace (S (S (S f))) with (S (S (S f))) in H by reflexivity.
+      eapply idle_run_err_St1; eauto.
+  Qed.
+
+  (* THEOREM (session level, every control state).  A unicast fragment with a header error that carries a
+     sequence number (unknown function code, invalid flags: the reader's TqError (Some q)) from an accepted
+     master is answered in the same step with exactly one solicited response: to the sender, sequence number q,
+     IIN2.0 NO_FUNC_CODE_SUPPORT set.  Idle: C12_header_error_reported.  In the solicited confirm wait the series
+     is aborted first (the fragment is a new request); in the unsolicited confirm wait the wait goes on. *)
+  Theorem header_error_reported_all : forall AP s answers,
+    P12.Reach AP cfg s ->
+    reports_error from q (snd (ostep cfg s (ERx from None bytes d) answers)).
+  Proof.
+    intros AP s answers HR.
+    pose proof (P12.Reach_J cfg AP s HR) as [J1 J2].
+    pose proof (P12.Reach_Inv_any _ _ _ HR) as HInv.
+    destruct (s_control s) as [|se dl r|resp is_null retries dl] eqn:Ec.
+    - destruct (P12.header_error_reported AP cfg s from bytes d answers q HR Ec Et)
+        as (pre & b & post & E & H1 & H2 & H3).
+      exists pre, b, post. split; [exact E|]. split; [apply P12.no_tx_not_sol; exact H1|]. split; [exact H2|exact H3].
+    - rewrite ostep_rx. set (s0 := upd_answers s answers).
+      assert (HI0 : IAany s0) by (split; [exact HInv|apply P12.Forall_aok_any]).
+      assert (Hd : s_deferred s = None) by (apply J2; reflexivity).
+      rewrite (P05.on_rx_sol_new cfg s0 from None bytes d se dl r [OInfo ISolNewRequest]);
+        [|exact Ec|unfold sol_wait_fragment; rewrite Et; reflexivity].
+      match goal with |- context [resume_at cfg ?st ?sx] => destruct (resume_at cfg st sx) as [s2 o2] eqn:E2 end.
+      rewrite resume_at_eq in E2. change 32%nat with (S (S (S (S 28)))) in E2.
+      apply (idle_run_err 28 _ _ (P05.next_fid s0)) in E2;
+        [|destruct r; cbn [stage_of]; eauto|split; [split; [exact (proj1 HInv)|exact I]|apply P12.Forall_aok_any]|reflexivity|exact Hd|reflexivity].
+      destruct E2 as [(pre & b & post & -> & R1 & R2 & R3) [Q2 HI2]].
+      destruct (advance 64 cfg s2 (s_now s2 + settle_ms)) as [s3 o3] eqn:E3.
+      apply P12.advance_quiet in E3; [|exact HI2|exact Q2]. destruct E3 as [_ Ho3].
+      cbn [snd]. exists (OInfo ISolNewRequest :: ODb DbReset :: pre), b, (post ++ o3).
+      split; [cbn [app]; rewrite <- !app_assoc; reflexivity|].
+      split; [constructor; [exact I|constructor; [exact I|exact R1]]|]. split; [apply Forall_app; split; assumption|exact R3].
+    - rewrite ostep_rx. set (s0 := upd_answers s answers).
+      assert (HI0 : IAany s0) by (split; [exact HInv|apply P12.Forall_aok_any]).
+      destruct (on_rx cfg s0 from None bytes d) as [s1 o1] eqn:E1.
+      pose proof (P12.on_rx_IA cfg P12.szany P12.szany_small (P12.szany_tx cfg) _ _ _ _ _ _ _ HI0 E1) as [HI1 _].
+      rewrite (P05.on_rx_unsol cfg s0 from None bytes d resp is_null retries dl) in E1 by exact Ec.
+      unfold unsol_wait_fragment in E1. rewrite Et in E1.
+      destruct (write_error_response (upd_deferred (P05.rx_state s0) None) from None (Some q)) as [s4 o4] eqn:E4.
+      injection E1 as <- <-. apply wer_reports in E4. destruct E4 as [Hsc (pre & b & -> & Hpre & Hb)].
+      destruct Hsc as (_ & _ & _ & _ & _ & C6 & _ & C8 & _). unfold P05.rx_state in C6, C8. L05.psimpl_in C6. L05.psimpl_in C8.
+      assert (Q4 : P12.quiet s4) by (split; [rewrite C8; exact J1|exact C6]).
+      destruct (advance 64 cfg s4 (s_now s4 + settle_ms)) as [s3 o3] eqn:E3.
+      apply P12.advance_quiet in E3; [|exact HI1|exact Q4]. destruct E3 as [_ Ho3].
+      cbn [snd]. change (reports_error from q ([] ++ (pre ++ [OTx from b]) ++ o3)). apply reports_error_intro; auto.
+  Qed.
+End HeaderError.
+
+(* which octets have such a digest: an unknown function code in octet 1; or a known request function code with
+   FIR or FIN clear, or UNS set on anything but a CONFIRM, in octet 0 *)
+Lemma frag_digest_unknown_function c f r :
+  afunction_known f = false -> frag_digest (c :: f :: r) = DUnknown (c mod 16) f.
+Proof. intros H. unfold frag_digest, parse_fragment, aparse_header. rewrite H, seq_bits. reflexivity. Qed.
+
+Lemma frag_digest_bad_flags c f r :
+  afunction_known f = true -> afunction_has_iin f = false ->
+  (N.testbit c 7 = false \/ N.testbit c 6 = false \/ (N.testbit c 4 = true /\ f <> 0)) ->
+  exists obj, frag_digest (c :: f :: r) = DOk c f RvBad obj.
+Proof.
+  intros Hk Hi Hflags. unfold frag_digest, parse_fragment, aparse_header. rewrite Hk, Hi.
+  unfold digest_of_parsed. cbn [pf_header ah_function nth]. eexists.
+  assert (Hr : ato_request {| ah_control := actl_of c; ah_function := f; ah_iin := None |} <> None).
+  { unfold ato_request. cbn [ah_iin ah_control ah_function]. rewrite fir_bit, fin_bit, uns_bit.
+    destruct Hflags as [H|[H|[H Hf]]]; rewrite H; cbn [andb negb]; try discriminate.
+    - rewrite andb_false_r. discriminate.
+    - destruct (N.testbit c 7 && N.testbit c 6); cbn [negb]; [|discriminate].
+      destruct (f =? fc_confirm) eqn:E; [apply N.eqb_eq in E; contradiction|discriminate]. }
+  destruct (ato_request _); [reflexivity|contradiction].
+Qed.
+
+(* THEOREM C12 (composed).  The octets received have a header error with a sequence number - their digest is
+   DUnknown (function code octet 1 not a function code) or carries RvBad (FIR/FIN/UNS flags a request must
+   not have, or a response function code) -, the fragment is not a broadcast and comes from an accepted master.
+   Then, in every reachable state of the composed model and every control state (idle, solicited confirm wait,
+   unsolicited confirm wait), the session's observations of the step contain exactly one solicited response
+   (function 129; everything else transmitted has function 130): it goes to the sender, its sequence number
+   is the request's (octet 0 mod 16), and IIN2 bit 0 NO_FUNC_CODE_SUPPORT is set. *)
+Theorem frx_header_error_reported : forall F st from bytes,
+  FReach F st -> accepted_master (f_o F) from ->
+  ((exists seq code, frag_digest bytes = DUnknown seq code) \/
+   (exists ctl fn obj, frag_digest bytes = DOk ctl fn RvBad obj)) ->
+  exists pre b post,
+    ro_out (frx_out F st from None bytes) = pre ++ OTx from b :: post /\
+    Forall P12.not_sol pre /\ Forall P12.not_sol post /\
+    nth 1 b 0 = 129 /\ (nth 0 b 0) mod 16 = (nth 0 bytes 0) mod 16 /\ N.testbit (nth 3 b 0) 0 = true.
+Proof.
+  intros F st from bytes HR Hacc Hdg.
+  assert (Et : to_treq (f_o F) from (frag_digest bytes) = TqError (Some (nth 0 bytes 0 mod 16))).
+  { rewrite (to_treq_accepted _ _ _ Hacc).
+    destruct (frag_digest_total bytes) as (dg & Edg & Hshape). rewrite Edg.
+    destruct Hdg as [(seq & code & E)|(ctl & fn & obj & E)]; rewrite Edg in E; subst dg.
+    - destruct Hshape as (_ & _ & c & Hc & ->). rewrite seq_bits.
+      destruct bytes as [|c0 r]; [discriminate Hc|]. cbn in Hc. inversion Hc; subst. reflexivity.
+    - destruct Hshape as (Hc & _). destruct bytes as [|c0 r]; [discriminate Hc|]. cbn in Hc. inversion Hc; subst. reflexivity. }
+  pose proof (fevent_run F st (fs_db st) (ERx from None bytes (frag_digest bytes))) as Hrun.
+  pose proof (header_error_reported_all (f_o F) from bytes (frag_digest bytes) _ Et _ (fs_s st)
+                (ro_answers (frx_out F st from None bytes)) (freach_reach12 F st HR)) as H.
+  unfold frx_out in *. rewrite Hrun in H. cbn [snd] in H.
+  destruct H as (pre & b & post & E & R1 & R2 & (B1 & B2 & B3)).
+  exists pre, b, post. split; [exact E|]. split; [exact R1|]. split; [exact R2|]. split; [exact B1|].
+  split.
+  - unfold ctl_seq in B2. rewrite B2. apply N.mod_mod. discriminate.
+  - assert (Hb : N.testbit (N.land (nth 3 b 0) 1) 0 = true) by (rewrite B3; reflexivity).
+    rewrite N.land_spec in Hb. apply andb_prop in Hb. exact (proj1 Hb).
+Qed.
+
+(* non-vacuity: an unknown function code (octet 1 = 70) and a request without FIR (octet 0 = 0x49), received
+   idle, during a solicited confirm wait (a class 1 event was read), during an unsolicited confirm wait *)
+Definition cz_bi (v : N) (t : N) : meas := mkMeas v 1 (Some (true, t)) [].
+Definition cz_solwait : fstate :=
+  ffinal cx_F cx_st0 [FAdd TBinary 0 (Some Class1); FUpdate TBinary 0 (cz_bi 1 1000); FRx 1 None [193; 1; 60; 2; 6]].
+
+Example ex_frx_header_error :
+  FReach cx_F cx_st0 /\ FReach cx_F cz_solwait /\ FReach cy_F cy_waiting /\
+  frag_digest [194; 70] = DUnknown 2 70 /\ frag_digest [73; 3] = DOk 73 3 RvBad (ObjOk [] []) /\
+  s_control (fs_s cx_st0) = CIdle /\
+  s_control (fs_s cz_solwait) = CSolWait {| se_ecsn := 1; se_fin := true |} 5002 RStep2 /\
+  (exists resp, s_control (fs_s cy_waiting) = CUnsolWait resp true (Some 0%nat) 5000) /\
+  ro_out (frx_out cx_F cx_st0 1 None [194; 70]) = [ODb DbEvinfo; OTx 1 [194; 129; 128; 1]] /\
+  ro_out (frx_out cx_F cz_solwait 1 None [194; 70]) =
+    [OInfo ISolNewRequest; ODb DbReset; ODb DbEvinfo; OTx 1 [194; 129; 130; 1]] /\
+  ro_out (frx_out cy_F cy_waiting 1 None [194; 70]) = [ODb DbEvinfo; OTx 1 [194; 129; 128; 1]] /\
+  ro_out (frx_out cx_F cx_st0 1 None [73; 3]) = [ODb DbEvinfo; OTx 1 [201; 129; 128; 1]] /\
+  ro_out (frx_out cx_F cz_solwait 1 None [73; 3]) =
+    [OInfo ISolNewRequest; ODb DbReset; ODb DbEvinfo; OTx 1 [201; 129; 130; 1]] /\
+  ro_out (frx_out cy_F cy_waiting 1 None [73; 3]) = [ODb DbEvinfo; OTx 1 [201; 129; 128; 1]] /\
+  has_replay_error (snd (fstep cx_F cz_solwait (FRx 1 None [194; 70]))) = false /\
+  has_replay_error (snd (fstep cy_F cy_waiting (FRx 1 None [73; 3]))) = false.
+Proof.
+  split; [constructor|]. split; [apply FReach_ffinal; constructor|]. split; [apply FReach_ffinal; constructor|].
+  vm_compute. repeat split. eexists. reflexivity.
+Qed.
+
+(* non-vacuity of C05 in the unsolicited confirm wait: the WRITE is executed and answered in the wait, its
+   repetition gets the stored octets and nothing else happens *)
+Definition cy_written : fstate := ffinal cy_F cy_waiting [FRx 1 None cx_wr].
+
+Example ex_frx_repeat_unsol_wait :
+  FReach cy_F cy_written /\ wf_request cx_wr /\
+  (exists l, s_last (fs_s cy_written) = Some l /\ lr_bytes l = cx_wr) /\
+  (exists resp, s_control (fs_s cy_written) = CUnsolWait resp true (Some 0%nat) 5000) /\ s_now (fs_s cy_written) = 3%Z /\
+  ro_out (frx_out cy_F cy_waiting 1 None cx_wr) = [OInfo IClearRestart; ODb DbEvinfo; OTx 1 [195; 129; 0; 0]] /\
+  ro_out (frx_out cy_F cy_written 1 None cx_wr) = [OTx 1 [195; 129; 0; 0]] /\
+  fs_db (fst (fstep cy_F cy_written (FRx 1 None cx_wr))) = fs_db cy_written /\
+  has_replay_error (snd (fstep cy_F cy_written (FRx 1 None cx_wr))) = false.
+Proof.
+  split; [apply FReach_ffinal; apply FReach_ffinal; constructor|].
+  split; [apply wf_request_digest; eexists; eexists; vm_compute; reflexivity|].
+  split; [eexists; vm_compute; split; reflexivity|]. split; [eexists; vm_compute; reflexivity|].
+  vm_compute. repeat split.
 Qed.
